@@ -419,6 +419,8 @@ pub fn run(ctx: &mut Ctx) {
     ctx.use_pool_thread = false;
     ctx.set_case_timeout(120.0);
     let t = ctx.tier;
+    ctx.max_shrink_iters = 150;
     ctx.section("reproducible", "bitwise equality of all repetitions of one configuration; different seeds differ; no panic for any u64 seed", t.pick(480, 20_000), 8, strategy, check);
+    ctx.max_shrink_iters = 6; // each case lasts seconds by construction
     ctx.section("paced-progress", "run_progress of a run paced to outlast the library's once-per-second / 250 ms progress timers returns bitwise the draws of run", t.pick(16, 320), 8, paced_strategy, check);
 }
